@@ -7,6 +7,17 @@ set -u
 ROOT="$(cd "$(dirname "$0")/.." && pwd)"
 PAT="${1:-}"
 ok=0; bad=0
+# the witnesses of the recorded known findings must still reproduce on the unchanged tree (a .case file
+# stores decisions, not inputs: a generator change in front of them silently changes what they denote)
+if [ -z "$PAT" ]; then
+  for P in $(grep '^known:' "$ROOT/known_findings.txt" | sed -E 's/^known: property=(C[0-9]+) .*/\1/' | sort -u); do
+    if (cd "$ROOT" && ./check "$P" quick 2>&1) | grep '^KNOWN-FINDING' | grep -qv 'witness reproduces'; then
+      echo "$P: a known-finding witness does NOT reproduce any more"; bad=$((bad+1))
+    else
+      echo "$P: known-finding witness reproduces"
+    fi
+  done
+fi
 if [ -n "$(git -C /repo status --short | grep -v '^??')" ]; then echo "refusing: /repo has uncommitted changes"; exit 2; fi
 for d in "$ROOT"/seeded/*${PAT}*/; do
   name=$(basename "$d")
